@@ -394,7 +394,38 @@ def gen_killpoints(ctx):
             c.add("xfsz_default")
         c.add("setconf", cfg=b)
         out.append(c)
+    # multi-megabyte stores that the Coq model rebuilds from the byte generator (lcg_bytes): killed before the rename
+    # and in the middle of the write
+    sizes = [400000, 400000] if ctx.tier == "quick" else [1200000, 1200000, 2300000, 2300000, 700000, 700000]
+    for n, size in enumerate(sizes):
+        c = Case("kpbig%d" % n, ndirs=2)
+        c.quiet, c.kp_big, c.kp_has_prev = True, True, True
+        a = cfg(rng, "small")
+        b = {"gen": rng.randrange(1, 1 << 20), "ndecoys": rng.randrange(1, 6), "seed": rng.randrange(1 << 30), "keylen": 0,
+             "keygen_seed": rng.randrange(1, 1 << 30), "keygen_n": size}
+        if n % 2 == 0:
+            c.inject, c.kp, c.needs = ["renameat:signal=SIGKILL"], "before-rename", ["strace"]
+        else:
+            c.kp = "mid-write"
+        c.pre = [{"op": "setdir", "dir": "$D1"}, {"op": "setdir", "dir": "$D0"}, {"op": "setconf", "cfg": a}, {"op": "digest", "cfg": b}]
+        c.add("setdir", dir="$D0")
+        if c.kp == "mid-write":
+            c.kp_k = rng.randrange(size // 8, size - 1000)
+            c.add("rlimit", k=c.kp_k)
+            c.add("xfsz_default")
+        c.add("setconf", cfg=b)
+        out.append(c)
     return out
+
+
+def same_dig(a, b):
+    return bool(a and b and a.get("has") and b.get("has") and a["len"] == b["len"] and a["sha"] == b["sha"])
+
+
+def g_ospec(dig):
+    if "hex" in dig or dig["len"] == 0:
+        return "(OLit %s)" % ihex(bytes.fromhex(hx(dig)))
+    return "(OSamp %s %s)" % (gN(dig["len"]), glist(dig.get("samp") or [], lambda gv: "(%d%%nat, %s)" % (gv[0], gN(gv[1]))))
 
 
 def eval_kp(ctx, c, out):
@@ -412,15 +443,17 @@ def eval_kp(ctx, c, out):
     ls = (out.get("post_ls") or [[]])[0] or []
     file = next((e["dig"] for e in ls if e["name"] == "ClientConf"), None)
     temps = [e for e in ls if e["name"] != "ClientConf"]
+    big = bool(getattr(c, "kp_big", False))
     if file is None:
         match = "prev" if not prev["has"] else "absent"
-    elif prev["has"] and hx(file) == hx(prev):
+    elif same_dig(file, prev):
         match = "prev"
-    elif hx(file) == hx(new):
+    elif same_dig(file, new):
         match = "new"
     else:
         match = "none"
-    ctx.count((c.name, c.kp, match, len(temps)), nontrivial=True, kind="kill/kp-%s/%s/%s" % (c.kp, match, "in-temp" if temps else "between"))
+    ctx.count((c.name, c.kp, match, len(temps)), nontrivial=True,
+              kind="kill/kp%s-%s/%s/%s" % ("big" if big else "", c.kp, match, "in-temp" if temps else "between"))
     if match == "none":
         ctx.fail("kill:kp-%s:file-neither-previous-nor-new" % c.kp, "process killed at '%s': the ClientConf file (%d bytes) is neither the "
                  "previous nor the new configuration" % (c.kp, file["len"]), case_id)
@@ -428,6 +461,23 @@ def eval_kp(ctx, c, out):
         ctx.fail("kill:kp-%s:file-missing" % c.kp, "process killed at '%s': the ClientConf file is missing" % c.kp, case_id)
     global INTERN
     INTERN = Intern()
+    if big:
+        parts = pre[-1].get("parts")
+        if not parts:
+            ctx.broken("driver", "kill-point case %s: the generated key was not found in the marshalled configuration" % c.name)
+            return []
+        obs = []
+        if file is not None:
+            obs.append("(Target, %s)" % g_ospec(file))
+        r = 0
+        for e in temps:
+            r = proj_path(out["dirs"][0] + "/" + e["name"], out["dirs"])[1][1]
+            obs.append("(Tmp %s, %s)" % (gN(r), g_ospec(e["dig"])))
+        newb = "(%s ++ lcg_bytes %s %s ++ %s)" % (ihex(bytes.fromhex(parts["head"])), gN(parts["seed"]), gN(parts["n"]),
+                                                  ihex(bytes.fromhex(parts["tail"])))
+        nsteps, fw = (3, "NoFault") if c.kp == "before-rename" else (2, "(FailAfter %s)" % gN(c.kp_k))
+        pv = "(Some %s)" % ihex(bytes.fromhex(hx(prev))) if prev["has"] else "None"
+        return [("big", INTERN.wrap("(%s, %s, %s, %d%%nat, %s, %s)" % (pv, newb, gN(r), nsteps, fw, glist(obs))))]
     obs = []
     if file is not None:
         obs.append("(Target, %s)" % g_bspec(file))
@@ -439,7 +489,7 @@ def eval_kp(ctx, c, out):
         r, tl = pp[1][1], e["dig"]["len"]
         obs.append("(Tmp %s, %s)" % (gN(r), g_bspec(e["dig"])))
     pv = "(Some %s)" % ihex(bytes.fromhex(hx(prev))) if prev["has"] else "None"
-    return [INTERN.wrap("(%s, %s, %s, %s, %s)" % (pv, ihex(bytes.fromhex(hx(new))), gN(r), gN(tl), glist(obs)))]
+    return [("small", INTERN.wrap("(%s, %s, %s, %s, %s)" % (pv, ihex(bytes.fromhex(hx(new))), gN(r), gN(tl), glist(obs))))]
 
 
 # ------------------------------------------------------------------ strace projection
@@ -1021,8 +1071,10 @@ def run(ctx):
     kterms = []
     for c, o in zip(kills, outs[len(scripted):len(scripted) + len(kills)]):
         kterms += eval_kill(ctx, c, o)
+    bigterms = []
     for c, o in zip(kps, outs[len(scripted) + len(kills):]):
-        kterms += eval_kp(ctx, c, o)
+        for kd, t in eval_kp(ctx, c, o):
+            (bigterms if kd == "big" else kterms).append(t)
     if scripted:
         c, o = scripted[0], outs[0]
         ctx.sample({"case": c.name, "script": c.script[:6], "results": [{k: v for k, v in r.items() if k in ("op", "err")} for r in (o.get("res") or [])[:6]],
@@ -1063,8 +1115,19 @@ def run(ctx):
     t1 = time.time()
     import os
     tagpid = "p%d" % os.getpid()        # concurrent checks of this property must not share case files
-    mm = ctx.coq_mismatches("script" + tagpid, HEADER, terms, "chk", shard=5, need_vo=["C20/Run.vo"])
-    tm["coq_script"] = round(time.time() - t1, 1)
+    rcm, outm = ctx.coq_make(["C20/Run.vo"])
+    if rcm != 0:
+        ctx.broken("model-build", "model does not compile: " + outm[-500:])
+        return
+    from concurrent.futures import ThreadPoolExecutor
+    with ThreadPoolExecutor(max_workers=3) as ex:      # the three evaluations are independent coqc runs
+        f_script = ex.submit(ctx.coq_mismatches, "script" + tagpid, HEADER, terms, "chk", 5)
+        f_kill = ex.submit(ctx.coq_mismatches, "kill" + tagpid, HEADER, kterms, "chk_kill", 40) if kterms else None
+        f_big = ex.submit(ctx.coq_mismatches, "big" + tagpid, HEADER, bigterms, "chk_kill_big", 1) if bigterms else None
+        mm = f_script.result()
+        mk = f_kill.result() if f_kill else None
+        mb = f_big.result() if f_big else None
+    tm["coq_cases"] = round(time.time() - t1, 1)
     if mm:
         ctx.cov["mismatches"] += len(mm)
         c, o = term_cases[mm[0]]
@@ -1072,12 +1135,14 @@ def run(ctx):
         ctx.broken("correspondence", "model C20.Run and the implementation disagree on %d scripted case(s); first: %s; model says: %s"
                    % (len(mm), c.name, shown[-900:]),
                    {"scripted": [ser_case(c)], "observed": {"res": o["res"], "trace": (o.get("trace") or [])[:60]}})
-    if kterms:
-        mk = ctx.coq_mismatches("kill" + tagpid, HEADER, kterms, "chk_kill", shard=40)
-        if mk:
-            ctx.cov["mismatches"] += len(mk)
-            ctx.broken("correspondence", "the directory left by %d SIGKILL trial(s) is not one the model reaches at any crash point; first term: %s"
-                       % (len(mk), kterms[mk[0]][:600]))
+    if mk:
+        ctx.cov["mismatches"] += len(mk)
+        ctx.broken("correspondence", "the directory left by %d SIGKILL trial(s) is not one the model reaches at any crash point; first term: %s"
+                   % (len(mk), kterms[mk[0]][:600]))
+    if mb:
+        ctx.cov["mismatches"] += len(mb)
+        ctx.broken("correspondence", "multi-megabyte store killed at a fixed crash point: the directory is not the one the model "
+                   "computes from the generated bytes (%d case(s)); first term: %s" % (len(mb), bigterms[mb[0]][:400]))
     ctx.cov["kill_trials"] = sum(v for k, v in hist.items() if k.startswith("kill/"))
     if os.environ.get("VERIF_KEEP") != "1":
         cleanup_gen(tagpid)
